@@ -8,6 +8,7 @@ import (
 	"sort"
 	"strconv"
 	"strings"
+	"sync"
 	"time"
 
 	"github.com/robbyt/go-supervisor/runnables/composite"
@@ -370,8 +371,11 @@ func encEntries(es []planEntry) string {
 }
 
 var planCfgs = map[int]*httpserver.Config{}
+var planCfgMu sync.Mutex
 
 func planCfg(i int) *httpserver.Config {
+	planCfgMu.Lock()
+	defer planCfgMu.Unlock()
 	if c, ok := planCfgs[i]; ok {
 		return c
 	}
